@@ -8,3 +8,48 @@ package fingerprint
 //@   sweep                                                          [C16]
 //@ func collectKeys
 //@   sweep                                                          [C16]
+
+// ---- C05/C04: the up-to-date verdict is the conjunction of the checkers that apply -------------------
+// stSaid / srcSaid observe what the status and sources checkers answered during this call.
+//@ ghost var stSaid bool scratch
+//@ ghost var srcSaid bool scratch
+
+// Interface contracts (assumed for every implementation): a checker never rewrites the task it inspects.
+//@ func (StatusCheckable).IsUpToDate
+//@   trusted
+//@   blocks
+//@   modifies heap
+//@   preserves $RUNDATA
+//@ func (SourcesCheckable).IsUpToDate
+//@   trusted
+//@   modifies heap
+//@   preserves $RUNDATA
+
+//@ func WithMethod
+//@   pure allocates
+//@ func WithDry
+//@   pure allocates
+//@ func WithTempDir
+//@   pure allocates
+//@ func WithLogger
+//@   pure allocates
+//@ func NewSourcesChecker
+//@   pure allocates
+//@ func NewStatusChecker
+//@   pure allocates
+//@ func (SourcesCheckable).OnError
+//@   trusted
+//@   modifies heap
+//@   preserves $RUNDATA
+//@ func IsTaskUpToDate
+//@   modifies heap
+//@   preserves $RUNDATA
+//@   blocks
+//@   site (StatusCheckable).IsUpToDate#1 ghost stSaid := result.0 && result.1 == nil
+//@   site (SourcesCheckable).IsUpToDate#1 ghost srcSaid := result.0 && result.1 == nil
+//@   ensures result.0 ==> result.1 == nil                                                        [C05]
+//@   ensures result.0 ==> len(t.Status) != 0 || len(t.Sources) != 0                              [C05]
+//@   ensures result.0 && len(t.Status) != 0 ==> stSaid                                           [C05,C04]
+//@   ensures result.0 && len(t.Sources) != 0 ==> srcSaid                                         [C05,C04]
+//@   ensures result.1 == nil && (len(t.Status) != 0 || len(t.Sources) != 0)
+//@           && (len(t.Status) == 0 || stSaid) && (len(t.Sources) == 0 || srcSaid) ==> result.0  [C05]
